@@ -193,7 +193,7 @@ mod verif_kani {
     }
 
     // ---- can_return_multiple_values: every call and `...` is multi-valued ------------------
-    //@harness props=C08,C12 kind=proof fns=Evaluator::can_return_multiple_values
+    //@harness props=C08,C12 kind=proof fns=Evaluator::can_return_multiple_values bound="the call `f()` and `...` (the Verus obligation covers every expression)"
     //@ desc="a function call expression and `...` are reported as possibly multi-valued (the only multi-valued expressions of Lua)"
     #[kani::proof]
     fn vk_eval_multiple_values_call_and_varargs() {
@@ -252,7 +252,7 @@ mod verif_tree_kani {
         core::mem::forget(e);
     }
 
-    //@harness props=C08,C12 kind=proof fns=Evaluator::evaluate_binary,Evaluator::evaluate_math,Evaluator::evaluate,LuaValue::number_coercion
+    //@harness props=C08,C12 kind=proof fns=Evaluator::evaluate_binary,Evaluator::evaluate_math,Evaluator::evaluate,LuaValue::number_coercion bound="the two operands are number constants over ALL pairs of doubles; operator fixed"
     //@ desc="for ALL pairs of doubles a, b: a definite value of `a + b` is the IEEE sum (NaN allowed)" budget=300
     #[kani::proof]
     #[kani::unwind(3)]
@@ -260,7 +260,7 @@ mod verif_tree_kani {
         check_arith(BinaryOperator::Plus);
     }
 
-    //@harness props=C08,C12 kind=proof fns=Evaluator::evaluate_binary,Evaluator::evaluate_math
+    //@harness props=C08,C12 kind=proof fns=Evaluator::evaluate_binary,Evaluator::evaluate_math bound="the two operands are number constants over ALL pairs of doubles; operator fixed"
     //@ desc="for ALL pairs of doubles a, b: a definite value of `a - b` is the IEEE difference" budget=300
     #[kani::proof]
     #[kani::unwind(3)]
@@ -290,7 +290,7 @@ mod verif_tree_kani {
         core::mem::forget(e);
     }
 
-    //@harness props=C08,C12 kind=proof fns=Evaluator::evaluate_binary,Evaluator::evaluate_relational
+    //@harness props=C08,C12 kind=proof fns=Evaluator::evaluate_binary,Evaluator::evaluate_relational bound="the two operands are number constants over ALL pairs of doubles; operator fixed"
     //@ desc="for ALL pairs of doubles a, b: a definite answer of `a < b` is the IEEE comparison (false whenever NaN is involved)" budget=300
     #[kani::proof]
     #[kani::unwind(3)]
@@ -298,7 +298,7 @@ mod verif_tree_kani {
         check_relational(BinaryOperator::LowerThan);
     }
 
-    //@harness props=C08,C12 kind=proof fns=Evaluator::evaluate_binary,Evaluator::evaluate_relational
+    //@harness props=C08,C12 kind=proof fns=Evaluator::evaluate_binary,Evaluator::evaluate_relational bound="the two operands are number constants over ALL pairs of doubles; operator fixed"
     //@ desc="for ALL pairs of doubles a, b: a definite answer of `a <= b` is the IEEE comparison (false whenever NaN is involved)" budget=300
     #[kani::proof]
     #[kani::unwind(3)]
@@ -306,7 +306,7 @@ mod verif_tree_kani {
         check_relational(BinaryOperator::LowerOrEqualThan);
     }
 
-    //@harness props=C08,C12 kind=proof fns=Evaluator::evaluate_binary,Evaluator::evaluate_relational
+    //@harness props=C08,C12 kind=proof fns=Evaluator::evaluate_binary,Evaluator::evaluate_relational bound="the two operands are number constants over ALL pairs of doubles; operator fixed"
     //@ desc="for ALL pairs of doubles a, b: a definite answer of `a > b` is the IEEE comparison (false whenever NaN is involved)" budget=300
     #[kani::proof]
     #[kani::unwind(3)]
@@ -314,7 +314,7 @@ mod verif_tree_kani {
         check_relational(BinaryOperator::GreaterThan);
     }
 
-    //@harness props=C08,C12 kind=proof fns=Evaluator::evaluate_binary,Evaluator::evaluate_relational
+    //@harness props=C08,C12 kind=proof fns=Evaluator::evaluate_binary,Evaluator::evaluate_relational bound="the two operands are number constants over ALL pairs of doubles; operator fixed"
     //@ desc="for ALL pairs of doubles a, b: a definite answer of `a >= b` is the IEEE comparison (false whenever NaN is involved)" budget=300
     #[kani::proof]
     #[kani::unwind(3)]
